@@ -104,8 +104,51 @@ class Proc:
         self.rc, self.out, self.err, self.timed_out, self.wall = rc, out, err, timed_out, wall
 
 
+def _descendants(pid):
+    """pid and every live descendant (children started by tracers / wrappers included)"""
+    kids = {}
+    for d in os.listdir("/proc"):
+        if d.isdigit():
+            try:
+                with open("/proc/%s/stat" % d) as f:
+                    st = f.read()
+                ppid = int(st[st.rindex(")") + 2:].split()[1])
+                kids.setdefault(ppid, []).append(int(d))
+            except (OSError, ValueError):
+                pass
+    out, todo = [], [pid]
+    while todo:
+        x = todo.pop()
+        out.append(x)
+        todo.extend(kids.get(x, []))
+    return out
+
+
+def _progress_sample(pid):
+    """(total CPU ticks, set of thread states) over the process tree; None if it is gone"""
+    ticks, states = 0, set()
+    for p in _descendants(pid):
+        try:
+            for t in os.listdir("/proc/%d/task" % p):
+                with open("/proc/%d/task/%s/stat" % (p, t)) as f:
+                    st = f.read()
+                fld = st[st.rindex(")") + 2:].split()
+                states.add(fld[0])
+                ticks += int(fld[11]) + int(fld[12])
+        except (OSError, ValueError, IndexError):
+            pass
+    return (ticks, frozenset(states)) if states else None
+
+
+HANG_RC = -998
+
+
 def run(argv, env=None, stdin=None, timeout=WATCHDOG, rlimits=None, ignore_sigxfsz=False, cwd=None, text=True):
-    """Runs a process with a generous watchdog. rlimits: dict name -> value (soft=hard)."""
+    """Runs a process with a generous watchdog. rlimits: dict name -> value (soft=hard).
+    Two different ways of not finishing are told apart: a process that is still consuming CPU when the watchdog fires is *slow* (timed_out:
+    inconclusive for the caller); a process whose whole tree has consumed no CPU at all and has every thread asleep (state S) for three
+    samples 5 s apart, after at least 15 s, is *hung* - a deadlock, not a slow machine: it is killed and reported with rc = HANG_RC and a
+    HANG line on stderr, which every oracle treats like any other abnormal exit."""
     e = dict(os.environ)
     e.pop("RUST_LOG", None)
     e["RUST_BACKTRACE"] = "0"
@@ -120,17 +163,63 @@ def run(argv, env=None, stdin=None, timeout=WATCHDOG, rlimits=None, ignore_sigxf
             signal.signal(signal.SIGXFSZ, signal.SIG_IGN)
 
     t0 = time.time()
-    try:
-        if text and isinstance(stdin, str):
-            stdin = stdin.encode("utf-8")
-        p = subprocess.run(argv, env=e, input=stdin, stdout=subprocess.PIPE, stderr=subprocess.PIPE, timeout=timeout,
-                           preexec_fn=pre if (rlimits or ignore_sigxfsz) else None, cwd=cwd)
-        # decode by hand: text mode would translate "\r" (possible inside OP_RETURN payloads) into "\n"
-        dec = (lambda b: b.decode("utf-8", errors="replace")) if text else (lambda b: b)
-        return Proc(p.returncode, dec(p.stdout), dec(p.stderr), False, time.time() - t0)
-    except subprocess.TimeoutExpired as ex:
-        dec = (lambda b: (b or b"").decode("utf-8", errors="replace")) if text else (lambda b: b or b"")
-        return Proc(None, dec(ex.stdout), dec(ex.stderr), True, time.time() - t0)
+    if text and isinstance(stdin, str):
+        stdin = stdin.encode("utf-8")
+    dec = (lambda b: (b or b"").decode("utf-8", errors="replace")) if text else (lambda b: b or b"")
+    fin = None
+    if stdin is not None:
+        # the input comes from an unlinked temporary file, not from a pipe fed by communicate(): CPython does not resume sending the
+        # rest of `input` when communicate() is called again after a timeout (the child would wait for it forever)
+        import tempfile
+        fin = tempfile.TemporaryFile()
+        fin.write(stdin)
+        fin.seek(0)
+    p = subprocess.Popen(argv, env=e, stdin=fin, stdout=subprocess.PIPE, stderr=subprocess.PIPE,
+                         preexec_fn=pre if (rlimits or ignore_sigxfsz) else None, cwd=cwd)
+    if fin is not None:
+        fin.close()
+    first, same, last = True, 0, None
+    hung = False
+    while True:
+        try:
+            # decode by hand: text mode would translate "\r" (possible inside OP_RETURN payloads) into "\n"
+            out, err = p.communicate(timeout=5)
+            return Proc(p.returncode, dec(out), dec(err), False, time.time() - t0)
+        except subprocess.TimeoutExpired:
+            first = False
+            el = time.time() - t0
+            smp = _progress_sample(p.pid)
+            if smp is not None and smp == last and smp[1] <= {"S"}:
+                same += 1
+            else:
+                same = 0
+            last = smp
+            if el >= 15 and same >= 2:
+                hung = True
+                if os.environ.get("VERIF_HANG_DEBUG"):
+                    try:
+                        info = []
+                        for q in _descendants(p.pid):
+                            for t in os.listdir("/proc/%d/task" % q):
+                                info.append("%s:%s:%s" % (q, t, open("/proc/%d/task/%s/wchan" % (q, t)).read()))
+                        sys.stderr.write("HANGDEBUG argv=%s input_len=%s offset=%s stdin_closed=%s threads=%s\n" % (
+                            argv[:2], len(p._input or b""), getattr(p, "_input_offset", None), p.stdin.closed if p.stdin else None, info[:6]))
+                    except Exception as ex:
+                        sys.stderr.write("HANGDEBUG failed %s\n" % ex)
+            if hung or el >= timeout:
+                for q in reversed(_descendants(p.pid)):
+                    try:
+                        os.kill(q, signal.SIGKILL)
+                    except OSError:
+                        pass
+                try:
+                    out, err = p.communicate(timeout=30)
+                except subprocess.TimeoutExpired:
+                    out, err = b"", b""
+                if hung:
+                    return Proc(HANG_RC, dec(out), dec(err) + "\nHANG: the process consumed no CPU time and all its threads were asleep for at least 10 s "
+                                "(%.0f s after start); killed by the harness" % el, False, time.time() - t0)
+                return Proc(None, dec(out), dec(err), True, time.time() - t0)
 
 
 def run_suspended(argv, env, event_log, pauses=(10.4,), marker='"ev":"deliver"', every=300, timeout=WATCHDOG, cwd=None, while_stopped=None):
